@@ -221,6 +221,8 @@ print("@@REPLAY@@" + json.dumps(out))
 def replay(pyfile: str, call: str, extra_path=(), timeout: float = 120) -> dict:
     """evaluate the printed call natively (pinned interpreter, real halmos).  A harness function returns True iff the
     property held, so `reproduced` = it returned a falsy value or raised."""
+    # crosshair may append ` with crosshair.patch_to_return({...})` to the printed call: not part of the call itself
+    call = re.split(r"\s+with\s+crosshair\.patch_to_return", call)[0].strip()
     try:
         p = subprocess.run([NATIVE_PY, "-c", _REPLAY_SNIPPET, pyfile, call], capture_output=True, text=True,
                            timeout=timeout, env=child_env([os.path.dirname(pyfile), *extra_path]))
@@ -229,7 +231,10 @@ def replay(pyfile: str, call: str, extra_path=(), timeout: float = 120) -> dict:
     for ln in p.stdout.splitlines():
         if ln.startswith("@@REPLAY@@"):
             res = json.loads(ln[len("@@REPLAY@@"):])
-            res["reproduced"] = ("raised" in res) or (res.get("truthy") is False)
+            raised = res.get("raised", "")
+            # a call that cannot even be evaluated (SyntaxError / NameError in the printed text) is not a reproduction
+            unevaluable = raised.startswith(("SyntaxError", "NameError"))
+            res["reproduced"] = (("raised" in res) and not unevaluable) or (res.get("truthy") is False)
             res["held"] = res.get("truthy") is True
             return res
     return {"reproduced": False, "error": (p.stdout + p.stderr)[-400:]}
